@@ -25,6 +25,29 @@ def known_class(info, entry):
     return None
 
 
+def directed():
+    """violations that need a particular file layout"""
+    M = lambda n, ps=(): ("method", n, list(ps), False, None)
+    out = []
+    # two files of the same NAME in different directories declare the same interface / struct /
+    # constant differently, both reached (one through a directory-qualified include)
+    base = [("error", "NOT_FOUND"), ("error", "BUSY"), M("ping")]
+    variants = {
+        "iface": ([("iface", "IBase", None, base)], [("iface", "IBase", None, [base[0], ("error", "DENIED"), base[1], base[2]])]),
+        "iface_same_errors_other_methods": ([("iface", "IBase", None, base)], [("iface", "IBase", None, base + [M("extra", [("in", "uint32", None, "x")])])]),
+        "struct": ([("struct", "Rec", [("uint32", 1, "a")]), ("iface", "IBase", None, base)], [("struct", "Rec", [("uint64", 1, "a")])]),
+        "const": ([("const", "uint32", "LIMIT", "1"), ("iface", "IBase", None, base)], [("const", "uint32", "LIMIT", "2")]),
+    }
+    for tag, (common, vendor) in variants.items():
+        for order in (["common/IBase.idl", "mid.idl"], ["mid.idl", "common/IBase.idl"]):
+            fs = {"files": [{"path": "main.idl", "includes": order, "decls": [("iface", "IApp", "IBase", [("error", "APP_FAIL"), M("run")])]},
+                            {"path": "mid.idl", "includes": ["vendor/IBase.idl"], "decls": [("const", "uint32", "MID", "3")]},
+                            {"path": "common/IBase.idl", "includes": [], "decls": common},
+                            {"path": "vendor/IBase.idl", "includes": [], "decls": vendor}], "main": "main.idl", "idirs": []}
+            out.append((fs, {"rule": "dup_toplevel_type" if tag != "const" else "dup_toplevel_const", "where": "inc", "directed": "same_named_files_" + tag}))
+    return out
+
+
 def run(ctx):
     prop, tier, seed, work = ctx["prop"], ctx["tier"], ctx["seed"], ctx["work"]
     n = 260 if tier == "quick" else 6000
@@ -34,6 +57,7 @@ def run(ctx):
         muts.append((rp["fileset"], rp["info"]))
     else:
         rng = vlib.mkrng(seed, prop)
+        muts += directed()
         k = 0
         while len(muts) < n:
             base, _ = gen.gen_fileset(rng, nfiles=rng.choice([1, 2, 2, 3]))
